@@ -26,7 +26,7 @@ Not decided: canonical PGN form, minimal disambiguation and reader/writer invers
 from .. import sym, lift, panics, setalg
 from . import movegen
 from .movegen import PIECE, FILE
-from .common import B, loc
+from .common import B, loc, run_closure_in_context
 from .c19 import parser_callees
 from .c07 import tmpl
 
@@ -154,7 +154,7 @@ def check_uci(ctx, f, L):
     for p in ps:
         conds = [(L.lift(c[0]), c[1]) for c in p.conds]
         r = L.lift(p.ret)
-        kf = [v for e, v in conds if e[0] == "bin" and e[1] == "Eq" and {e[2], e[3]} == {KING, mfrom}]
+        kf = [(v if e[1] == "Eq" else 1 - v) for e, v in conds if e[0] == "bin" and e[1] in ("Eq", "Ne") and {e[2], e[3]} == {KING, mfrom} and isinstance(v, int)]
         eqs = []
         for e, v in conds:
             # comparisons of the (current) destination with a right's rook square (right's file, mover's back rank)
@@ -168,6 +168,9 @@ def check_uci(ctx, f, L):
                             ctx.fail("uci-write:rook-squares", "the writer compares a right's rook square with something other than the destination: %s" % sym.show(other)[:80], where)
             elif sym.contains(e, lambda y: y[0] == "field" and y[2] in ("short", "long") and y[1] == RIGHTS) and not (e[0] == "discr" and e[1][0] == "field" and e[1][1] == RIGHTS):
                 ctx.fail("uci-write:rook-squares", "the writer's castle squares are not (right's file, mover's back rank): %s" % sym.show(e)[:120], where)
+        # `Move { to: X, ..mv }` is mv with its destination replaced
+        if r[0] == "agg" and r[1].endswith("chess_move::Move") and dict(r[4]).get("from") == mfrom and dict(r[4]).get("promotion") == ("field", MV, "promotion"):
+            r = MV if dict(r[4]).get("to") == mto else ("with", MV, ("f", "to"), dict(r[4]).get("to"))
         target = None
         if r == MV:
             target = "unchanged"
@@ -220,7 +223,11 @@ def check_san_reader(ctx, f, L):
                   "the returned move is not the slot the generation listener writes", where, sample={"result": "mv.ok_or(..) after generate_moves_for"} if n_ok == 1 else None)
         ctx.check(g.args[0] == ("ptr", ("P", "board"), (), False), "san-read:same-board", "moves are generated on a different board", where)
         # end of input tested before generation
-        eoi = [c for c in p.conds[:g.ncond] if sym.contains(c[0], lambda y: y[0] == "call" and y[1].endswith("Iterator>::next")) and c[0][0] == "bin"]
+        # an end-of-text test before generation: the character source yields nothing more / the remaining text is empty
+        def eoi_test(e):
+            return (e[0] == "bin" and sym.contains(e, lambda y: y[0] == "call" and (y[1].endswith("Iterator>::next") or y[1].endswith("::peek")))) or \
+                sym.contains(e, lambda y: y[0] == "call" and y[1] in ("str::is_empty", "str::len", "core::str::<impl str>::is_empty", "core::str::<impl str>::len"))
+        eoi = [c for c in p.conds[:g.ncond] if eoi_test(c[0])]
         ctx.check(any(c[1] in (0, 1) for c in eoi), "san-read:end-of-input", "moves are generated without first requiring the end of the text", where)
         # origin mask: own pieces of the piece kind (& rank mask & file mask)
         mask = L.lift(g.args[1])
@@ -253,7 +260,18 @@ def check_san_reader(ctx, f, L):
             lst = f.bodies[k]
     if not ctx.check(lst is not None, "san-read:listener", "no listener closure found in parse_san_move", where):
         return
-    cps = sym.SymExec(f, lst).run()
+    # run the listener with its captured variables bound as at the generation call (the destination mask may be
+    # computed outside the closure)
+    cps = None
+    for p_ in ps:
+        for e_ in p_.events:
+            if e_.kind == "call" and e_.depth == 0 and e_.name == gm and len(e_.args) > 2 and e_.args[2][0] == "closure" and e_.args[2][1] == lst.key and p_.end == "return":
+                _, cps = run_closure_in_context(f, e_.args[2], p_.store)
+                break
+        if cps:
+            break
+    if not cps:
+        cps = sym.SymExec(f, lst).run()
     lw = loc(lst)
     dst_filter = promo_cmp = uniq = False
     wrote_some = 0
@@ -380,21 +398,24 @@ def check_san_writer(ctx, f, L):
     fps = sym.SymExec(f, fb, max_paths=200000).run()
     orders = set()
     for p in fps:
-        if p.end != "return" or not (p.ret[0] == "agg" and p.ret[2] == "Ok"):
+        # successful paths: Ok(()) or the verdict of the last write handed back
+        last_write = [e for e in p.events if e.kind == "call" and e.depth == 0 and "core::fmt" in e.name and "::write_" in e.name]
+        if p.end != "return" or not ((p.ret[0] == "agg" and p.ret[2] == "Ok") or (last_write and p.ret == last_write[-1].ret)):
             continue
-        seq = []
-        for e in p.events:
-            if e.kind == "call" and e.depth == 0 and "Arguments" in e.name and (e.name.endswith("::new") or e.name.endswith("from_str")):
-                try:
-                    seq.append(tmpl(e.args[0]))
-                except ValueError:
-                    seq.append("?")
-        orders.add(tuple(seq))
-    full = ("{}", "{}", "{}", "x", "{}", "={}", "#")
-    ok_full = any(o == full for o in orders) and any(o == ("O-O-O",) or o[:1] == ("O-O-O",) for o in orders) and any(o[:1] == ("O-O",) for o in orders)
-    in_order = all(is_subsequence(o, ("{}", "{}", "{}", "x", "{}", "={}", "#")) or is_subsequence(o, ("{}", "{}", "{}", "x", "{}", "={}", "+")) or o[0] in ("O-O", "O-O-O") for o in orders)
+        # everything written on this path, as one template string (write!, write_str and write_char alike)
+        from .c07 import writes
+        try:
+            seq = "".join(t_ for t_, a_, e_ in writes(L, p))
+        except ValueError:
+            seq = "?"
+        orders.add(seq)
+    # destination: one placeholder (the square) or two (its file and rank)
+    fulls = ("{}{}{}x{}={}#", "{}{}{}x{}{}={}#")
+    tokens = lambda s: [x for x in s.replace("{}", "\0").replace("O-O-O", "\1").replace("O-O", "\2")]
+    ok_full = any(o in fulls for o in orders) and any(o.startswith("O-O-O") for o in orders) and any(o.startswith("O-O") and not o.startswith("O-O-O") for o in orders)
+    in_order = all(any(is_subsequence(tokens(o), tokens(fl_[:-1] + sfx)) for fl_ in fulls for sfx in ("#", "+")) or o.startswith("O-O") for o in orders)
     ctx.check(ok_full and in_order, "san-write:text-order", "SAN text is not assembled as piece, file, rank, x, destination, =promotion, #|+ (or O-O / O-O-O + suffix)", loc(fb),
-              sample={"orders": len(orders), "longest": list(full)})
+              sample={"orders": len(orders), "longest": max(orders, key=len) if orders else None})
 
 
 def is_subsequence(a, b):
